@@ -28,28 +28,28 @@ def CPc.holds : CPc → Bool
   | .exit => false
   | .fin => false
 
-@[simp] theorem CPc.holds_unborn : (CPc.unborn).holds = false := rfl
-@[simp] theorem CPc.holds_bstart : (CPc.bstart).holds = false := rfl
-@[simp] theorem CPc.holds_createB : (CPc.createB).holds = false := rfl
-@[simp] theorem CPc.holds_idle : (CPc.idle).holds = false := rfl
-@[simp] theorem CPc.holds_startCreate : (CPc.startCreate).holds = false := rfl
-@[simp] theorem CPc.holds_trigLock_user : (CPc.trigLock .user).holds = false := rfl
-@[simp] theorem CPc.holds_trigLock_stop_g (g : Bool) : (CPc.trigLock (.stop g)).holds = false := rfl
-@[simp] theorem CPc.holds_trigLock_setoff : (CPc.trigLock .setoff).holds = false := rfl
-@[simp] theorem CPc.holds_trigNotify_user : (CPc.trigNotify .user).holds = true := rfl
-@[simp] theorem CPc.holds_trigNotify_stop_g (g : Bool) : (CPc.trigNotify (.stop g)).holds = true := rfl
-@[simp] theorem CPc.holds_trigNotify_setoff : (CPc.trigNotify .setoff).holds = true := rfl
-@[simp] theorem CPc.holds_stopNotifyF_g (g : Bool) : (CPc.stopNotifyF g).holds = false := rfl
-@[simp] theorem CPc.holds_stopJoin_g (g : Bool) : (CPc.stopJoin g).holds = false := rfl
-@[simp] theorem CPc.holds_setLock_true : (CPc.setLock true).holds = false := rfl
-@[simp] theorem CPc.holds_setLock_false : (CPc.setLock false).holds = false := rfl
-@[simp] theorem CPc.holds_getLock : (CPc.getLock).holds = false := rfl
-@[simp] theorem CPc.holds_getWait : (CPc.getWait).holds = true := rfl
-@[simp] theorem CPc.holds_getAsleep_true : (CPc.getAsleep true).holds = false := rfl
-@[simp] theorem CPc.holds_getAsleep_false : (CPc.getAsleep false).holds = false := rfl
-@[simp] theorem CPc.holds_joinB : (CPc.joinB).holds = false := rfl
-@[simp] theorem CPc.holds_exit : (CPc.exit).holds = false := rfl
-@[simp] theorem CPc.holds_fin : (CPc.fin).holds = false := rfl
+@[simp, grind =] theorem CPc.holds_unborn : (CPc.unborn).holds = false := rfl
+@[simp, grind =] theorem CPc.holds_bstart : (CPc.bstart).holds = false := rfl
+@[simp, grind =] theorem CPc.holds_createB : (CPc.createB).holds = false := rfl
+@[simp, grind =] theorem CPc.holds_idle : (CPc.idle).holds = false := rfl
+@[simp, grind =] theorem CPc.holds_startCreate : (CPc.startCreate).holds = false := rfl
+@[simp, grind =] theorem CPc.holds_trigLock_user : (CPc.trigLock .user).holds = false := rfl
+@[simp, grind =] theorem CPc.holds_trigLock_stop_g (g : Bool) : (CPc.trigLock (.stop g)).holds = false := rfl
+@[simp, grind =] theorem CPc.holds_trigLock_setoff : (CPc.trigLock .setoff).holds = false := rfl
+@[simp, grind =] theorem CPc.holds_trigNotify_user : (CPc.trigNotify .user).holds = true := rfl
+@[simp, grind =] theorem CPc.holds_trigNotify_stop_g (g : Bool) : (CPc.trigNotify (.stop g)).holds = true := rfl
+@[simp, grind =] theorem CPc.holds_trigNotify_setoff : (CPc.trigNotify .setoff).holds = true := rfl
+@[simp, grind =] theorem CPc.holds_stopNotifyF_g (g : Bool) : (CPc.stopNotifyF g).holds = false := rfl
+@[simp, grind =] theorem CPc.holds_stopJoin_g (g : Bool) : (CPc.stopJoin g).holds = false := rfl
+@[simp, grind =] theorem CPc.holds_setLock_true : (CPc.setLock true).holds = false := rfl
+@[simp, grind =] theorem CPc.holds_setLock_false : (CPc.setLock false).holds = false := rfl
+@[simp, grind =] theorem CPc.holds_getLock : (CPc.getLock).holds = false := rfl
+@[simp, grind =] theorem CPc.holds_getWait : (CPc.getWait).holds = true := rfl
+@[simp, grind =] theorem CPc.holds_getAsleep_true : (CPc.getAsleep true).holds = false := rfl
+@[simp, grind =] theorem CPc.holds_getAsleep_false : (CPc.getAsleep false).holds = false := rfl
+@[simp, grind =] theorem CPc.holds_joinB : (CPc.joinB).holds = false := rfl
+@[simp, grind =] theorem CPc.holds_exit : (CPc.exit).holds = false := rfl
+@[simp, grind =] theorem CPc.holds_fin : (CPc.fin).holds = false := rfl
 
 def CPc.stopPre : CPc → Bool
   | .unborn => false
@@ -75,28 +75,28 @@ def CPc.stopPre : CPc → Bool
   | .exit => false
   | .fin => false
 
-@[simp] theorem CPc.stopPre_unborn : (CPc.unborn).stopPre = false := rfl
-@[simp] theorem CPc.stopPre_bstart : (CPc.bstart).stopPre = false := rfl
-@[simp] theorem CPc.stopPre_createB : (CPc.createB).stopPre = false := rfl
-@[simp] theorem CPc.stopPre_idle : (CPc.idle).stopPre = false := rfl
-@[simp] theorem CPc.stopPre_startCreate : (CPc.startCreate).stopPre = false := rfl
-@[simp] theorem CPc.stopPre_trigLock_user : (CPc.trigLock .user).stopPre = false := rfl
-@[simp] theorem CPc.stopPre_trigLock_stop_g (g : Bool) : (CPc.trigLock (.stop g)).stopPre = true := rfl
-@[simp] theorem CPc.stopPre_trigLock_setoff : (CPc.trigLock .setoff).stopPre = false := rfl
-@[simp] theorem CPc.stopPre_trigNotify_user : (CPc.trigNotify .user).stopPre = false := rfl
-@[simp] theorem CPc.stopPre_trigNotify_stop_g (g : Bool) : (CPc.trigNotify (.stop g)).stopPre = true := rfl
-@[simp] theorem CPc.stopPre_trigNotify_setoff : (CPc.trigNotify .setoff).stopPre = false := rfl
-@[simp] theorem CPc.stopPre_stopNotifyF_g (g : Bool) : (CPc.stopNotifyF g).stopPre = true := rfl
-@[simp] theorem CPc.stopPre_stopJoin_g (g : Bool) : (CPc.stopJoin g).stopPre = false := rfl
-@[simp] theorem CPc.stopPre_setLock_true : (CPc.setLock true).stopPre = false := rfl
-@[simp] theorem CPc.stopPre_setLock_false : (CPc.setLock false).stopPre = false := rfl
-@[simp] theorem CPc.stopPre_getLock : (CPc.getLock).stopPre = false := rfl
-@[simp] theorem CPc.stopPre_getWait : (CPc.getWait).stopPre = false := rfl
-@[simp] theorem CPc.stopPre_getAsleep_true : (CPc.getAsleep true).stopPre = false := rfl
-@[simp] theorem CPc.stopPre_getAsleep_false : (CPc.getAsleep false).stopPre = false := rfl
-@[simp] theorem CPc.stopPre_joinB : (CPc.joinB).stopPre = false := rfl
-@[simp] theorem CPc.stopPre_exit : (CPc.exit).stopPre = false := rfl
-@[simp] theorem CPc.stopPre_fin : (CPc.fin).stopPre = false := rfl
+@[simp, grind =] theorem CPc.stopPre_unborn : (CPc.unborn).stopPre = false := rfl
+@[simp, grind =] theorem CPc.stopPre_bstart : (CPc.bstart).stopPre = false := rfl
+@[simp, grind =] theorem CPc.stopPre_createB : (CPc.createB).stopPre = false := rfl
+@[simp, grind =] theorem CPc.stopPre_idle : (CPc.idle).stopPre = false := rfl
+@[simp, grind =] theorem CPc.stopPre_startCreate : (CPc.startCreate).stopPre = false := rfl
+@[simp, grind =] theorem CPc.stopPre_trigLock_user : (CPc.trigLock .user).stopPre = false := rfl
+@[simp, grind =] theorem CPc.stopPre_trigLock_stop_g (g : Bool) : (CPc.trigLock (.stop g)).stopPre = true := rfl
+@[simp, grind =] theorem CPc.stopPre_trigLock_setoff : (CPc.trigLock .setoff).stopPre = false := rfl
+@[simp, grind =] theorem CPc.stopPre_trigNotify_user : (CPc.trigNotify .user).stopPre = false := rfl
+@[simp, grind =] theorem CPc.stopPre_trigNotify_stop_g (g : Bool) : (CPc.trigNotify (.stop g)).stopPre = true := rfl
+@[simp, grind =] theorem CPc.stopPre_trigNotify_setoff : (CPc.trigNotify .setoff).stopPre = false := rfl
+@[simp, grind =] theorem CPc.stopPre_stopNotifyF_g (g : Bool) : (CPc.stopNotifyF g).stopPre = true := rfl
+@[simp, grind =] theorem CPc.stopPre_stopJoin_g (g : Bool) : (CPc.stopJoin g).stopPre = false := rfl
+@[simp, grind =] theorem CPc.stopPre_setLock_true : (CPc.setLock true).stopPre = false := rfl
+@[simp, grind =] theorem CPc.stopPre_setLock_false : (CPc.setLock false).stopPre = false := rfl
+@[simp, grind =] theorem CPc.stopPre_getLock : (CPc.getLock).stopPre = false := rfl
+@[simp, grind =] theorem CPc.stopPre_getWait : (CPc.getWait).stopPre = false := rfl
+@[simp, grind =] theorem CPc.stopPre_getAsleep_true : (CPc.getAsleep true).stopPre = false := rfl
+@[simp, grind =] theorem CPc.stopPre_getAsleep_false : (CPc.getAsleep false).stopPre = false := rfl
+@[simp, grind =] theorem CPc.stopPre_joinB : (CPc.joinB).stopPre = false := rfl
+@[simp, grind =] theorem CPc.stopPre_exit : (CPc.exit).stopPre = false := rfl
+@[simp, grind =] theorem CPc.stopPre_fin : (CPc.fin).stopPre = false := rfl
 
 def CPc.stopTPre : CPc → Bool
   | .unborn => false
@@ -122,28 +122,28 @@ def CPc.stopTPre : CPc → Bool
   | .exit => false
   | .fin => false
 
-@[simp] theorem CPc.stopTPre_unborn : (CPc.unborn).stopTPre = false := rfl
-@[simp] theorem CPc.stopTPre_bstart : (CPc.bstart).stopTPre = false := rfl
-@[simp] theorem CPc.stopTPre_createB : (CPc.createB).stopTPre = false := rfl
-@[simp] theorem CPc.stopTPre_idle : (CPc.idle).stopTPre = false := rfl
-@[simp] theorem CPc.stopTPre_startCreate : (CPc.startCreate).stopTPre = false := rfl
-@[simp] theorem CPc.stopTPre_trigLock_user : (CPc.trigLock .user).stopTPre = false := rfl
-@[simp] theorem CPc.stopTPre_trigLock_stop_g (g : Bool) : (CPc.trigLock (.stop g)).stopTPre = true := rfl
-@[simp] theorem CPc.stopTPre_trigLock_setoff : (CPc.trigLock .setoff).stopTPre = false := rfl
-@[simp] theorem CPc.stopTPre_trigNotify_user : (CPc.trigNotify .user).stopTPre = false := rfl
-@[simp] theorem CPc.stopTPre_trigNotify_stop_g (g : Bool) : (CPc.trigNotify (.stop g)).stopTPre = true := rfl
-@[simp] theorem CPc.stopTPre_trigNotify_setoff : (CPc.trigNotify .setoff).stopTPre = false := rfl
-@[simp] theorem CPc.stopTPre_stopNotifyF_g (g : Bool) : (CPc.stopNotifyF g).stopTPre = false := rfl
-@[simp] theorem CPc.stopTPre_stopJoin_g (g : Bool) : (CPc.stopJoin g).stopTPre = false := rfl
-@[simp] theorem CPc.stopTPre_setLock_true : (CPc.setLock true).stopTPre = false := rfl
-@[simp] theorem CPc.stopTPre_setLock_false : (CPc.setLock false).stopTPre = false := rfl
-@[simp] theorem CPc.stopTPre_getLock : (CPc.getLock).stopTPre = false := rfl
-@[simp] theorem CPc.stopTPre_getWait : (CPc.getWait).stopTPre = false := rfl
-@[simp] theorem CPc.stopTPre_getAsleep_true : (CPc.getAsleep true).stopTPre = false := rfl
-@[simp] theorem CPc.stopTPre_getAsleep_false : (CPc.getAsleep false).stopTPre = false := rfl
-@[simp] theorem CPc.stopTPre_joinB : (CPc.joinB).stopTPre = false := rfl
-@[simp] theorem CPc.stopTPre_exit : (CPc.exit).stopTPre = false := rfl
-@[simp] theorem CPc.stopTPre_fin : (CPc.fin).stopTPre = false := rfl
+@[simp, grind =] theorem CPc.stopTPre_unborn : (CPc.unborn).stopTPre = false := rfl
+@[simp, grind =] theorem CPc.stopTPre_bstart : (CPc.bstart).stopTPre = false := rfl
+@[simp, grind =] theorem CPc.stopTPre_createB : (CPc.createB).stopTPre = false := rfl
+@[simp, grind =] theorem CPc.stopTPre_idle : (CPc.idle).stopTPre = false := rfl
+@[simp, grind =] theorem CPc.stopTPre_startCreate : (CPc.startCreate).stopTPre = false := rfl
+@[simp, grind =] theorem CPc.stopTPre_trigLock_user : (CPc.trigLock .user).stopTPre = false := rfl
+@[simp, grind =] theorem CPc.stopTPre_trigLock_stop_g (g : Bool) : (CPc.trigLock (.stop g)).stopTPre = true := rfl
+@[simp, grind =] theorem CPc.stopTPre_trigLock_setoff : (CPc.trigLock .setoff).stopTPre = false := rfl
+@[simp, grind =] theorem CPc.stopTPre_trigNotify_user : (CPc.trigNotify .user).stopTPre = false := rfl
+@[simp, grind =] theorem CPc.stopTPre_trigNotify_stop_g (g : Bool) : (CPc.trigNotify (.stop g)).stopTPre = true := rfl
+@[simp, grind =] theorem CPc.stopTPre_trigNotify_setoff : (CPc.trigNotify .setoff).stopTPre = false := rfl
+@[simp, grind =] theorem CPc.stopTPre_stopNotifyF_g (g : Bool) : (CPc.stopNotifyF g).stopTPre = false := rfl
+@[simp, grind =] theorem CPc.stopTPre_stopJoin_g (g : Bool) : (CPc.stopJoin g).stopTPre = false := rfl
+@[simp, grind =] theorem CPc.stopTPre_setLock_true : (CPc.setLock true).stopTPre = false := rfl
+@[simp, grind =] theorem CPc.stopTPre_setLock_false : (CPc.setLock false).stopTPre = false := rfl
+@[simp, grind =] theorem CPc.stopTPre_getLock : (CPc.getLock).stopTPre = false := rfl
+@[simp, grind =] theorem CPc.stopTPre_getWait : (CPc.getWait).stopTPre = false := rfl
+@[simp, grind =] theorem CPc.stopTPre_getAsleep_true : (CPc.getAsleep true).stopTPre = false := rfl
+@[simp, grind =] theorem CPc.stopTPre_getAsleep_false : (CPc.getAsleep false).stopTPre = false := rfl
+@[simp, grind =] theorem CPc.stopTPre_joinB : (CPc.joinB).stopTPre = false := rfl
+@[simp, grind =] theorem CPc.stopTPre_exit : (CPc.exit).stopTPre = false := rfl
+@[simp, grind =] theorem CPc.stopTPre_fin : (CPc.fin).stopTPre = false := rfl
 
 def CPc.stopLockPre : CPc → Bool
   | .unborn => false
@@ -169,28 +169,28 @@ def CPc.stopLockPre : CPc → Bool
   | .exit => false
   | .fin => false
 
-@[simp] theorem CPc.stopLockPre_unborn : (CPc.unborn).stopLockPre = false := rfl
-@[simp] theorem CPc.stopLockPre_bstart : (CPc.bstart).stopLockPre = false := rfl
-@[simp] theorem CPc.stopLockPre_createB : (CPc.createB).stopLockPre = false := rfl
-@[simp] theorem CPc.stopLockPre_idle : (CPc.idle).stopLockPre = false := rfl
-@[simp] theorem CPc.stopLockPre_startCreate : (CPc.startCreate).stopLockPre = false := rfl
-@[simp] theorem CPc.stopLockPre_trigLock_user : (CPc.trigLock .user).stopLockPre = false := rfl
-@[simp] theorem CPc.stopLockPre_trigLock_stop_g (g : Bool) : (CPc.trigLock (.stop g)).stopLockPre = true := rfl
-@[simp] theorem CPc.stopLockPre_trigLock_setoff : (CPc.trigLock .setoff).stopLockPre = false := rfl
-@[simp] theorem CPc.stopLockPre_trigNotify_user : (CPc.trigNotify .user).stopLockPre = false := rfl
-@[simp] theorem CPc.stopLockPre_trigNotify_stop_g (g : Bool) : (CPc.trigNotify (.stop g)).stopLockPre = false := rfl
-@[simp] theorem CPc.stopLockPre_trigNotify_setoff : (CPc.trigNotify .setoff).stopLockPre = false := rfl
-@[simp] theorem CPc.stopLockPre_stopNotifyF_g (g : Bool) : (CPc.stopNotifyF g).stopLockPre = false := rfl
-@[simp] theorem CPc.stopLockPre_stopJoin_g (g : Bool) : (CPc.stopJoin g).stopLockPre = false := rfl
-@[simp] theorem CPc.stopLockPre_setLock_true : (CPc.setLock true).stopLockPre = false := rfl
-@[simp] theorem CPc.stopLockPre_setLock_false : (CPc.setLock false).stopLockPre = false := rfl
-@[simp] theorem CPc.stopLockPre_getLock : (CPc.getLock).stopLockPre = false := rfl
-@[simp] theorem CPc.stopLockPre_getWait : (CPc.getWait).stopLockPre = false := rfl
-@[simp] theorem CPc.stopLockPre_getAsleep_true : (CPc.getAsleep true).stopLockPre = false := rfl
-@[simp] theorem CPc.stopLockPre_getAsleep_false : (CPc.getAsleep false).stopLockPre = false := rfl
-@[simp] theorem CPc.stopLockPre_joinB : (CPc.joinB).stopLockPre = false := rfl
-@[simp] theorem CPc.stopLockPre_exit : (CPc.exit).stopLockPre = false := rfl
-@[simp] theorem CPc.stopLockPre_fin : (CPc.fin).stopLockPre = false := rfl
+@[simp, grind =] theorem CPc.stopLockPre_unborn : (CPc.unborn).stopLockPre = false := rfl
+@[simp, grind =] theorem CPc.stopLockPre_bstart : (CPc.bstart).stopLockPre = false := rfl
+@[simp, grind =] theorem CPc.stopLockPre_createB : (CPc.createB).stopLockPre = false := rfl
+@[simp, grind =] theorem CPc.stopLockPre_idle : (CPc.idle).stopLockPre = false := rfl
+@[simp, grind =] theorem CPc.stopLockPre_startCreate : (CPc.startCreate).stopLockPre = false := rfl
+@[simp, grind =] theorem CPc.stopLockPre_trigLock_user : (CPc.trigLock .user).stopLockPre = false := rfl
+@[simp, grind =] theorem CPc.stopLockPre_trigLock_stop_g (g : Bool) : (CPc.trigLock (.stop g)).stopLockPre = true := rfl
+@[simp, grind =] theorem CPc.stopLockPre_trigLock_setoff : (CPc.trigLock .setoff).stopLockPre = false := rfl
+@[simp, grind =] theorem CPc.stopLockPre_trigNotify_user : (CPc.trigNotify .user).stopLockPre = false := rfl
+@[simp, grind =] theorem CPc.stopLockPre_trigNotify_stop_g (g : Bool) : (CPc.trigNotify (.stop g)).stopLockPre = false := rfl
+@[simp, grind =] theorem CPc.stopLockPre_trigNotify_setoff : (CPc.trigNotify .setoff).stopLockPre = false := rfl
+@[simp, grind =] theorem CPc.stopLockPre_stopNotifyF_g (g : Bool) : (CPc.stopNotifyF g).stopLockPre = false := rfl
+@[simp, grind =] theorem CPc.stopLockPre_stopJoin_g (g : Bool) : (CPc.stopJoin g).stopLockPre = false := rfl
+@[simp, grind =] theorem CPc.stopLockPre_setLock_true : (CPc.setLock true).stopLockPre = false := rfl
+@[simp, grind =] theorem CPc.stopLockPre_setLock_false : (CPc.setLock false).stopLockPre = false := rfl
+@[simp, grind =] theorem CPc.stopLockPre_getLock : (CPc.getLock).stopLockPre = false := rfl
+@[simp, grind =] theorem CPc.stopLockPre_getWait : (CPc.getWait).stopLockPre = false := rfl
+@[simp, grind =] theorem CPc.stopLockPre_getAsleep_true : (CPc.getAsleep true).stopLockPre = false := rfl
+@[simp, grind =] theorem CPc.stopLockPre_getAsleep_false : (CPc.getAsleep false).stopLockPre = false := rfl
+@[simp, grind =] theorem CPc.stopLockPre_joinB : (CPc.joinB).stopLockPre = false := rfl
+@[simp, grind =] theorem CPc.stopLockPre_exit : (CPc.exit).stopLockPre = false := rfl
+@[simp, grind =] theorem CPc.stopLockPre_fin : (CPc.fin).stopLockPre = false := rfl
 
 def CPc.inStop : CPc → Bool
   | .unborn => false
@@ -216,28 +216,28 @@ def CPc.inStop : CPc → Bool
   | .exit => false
   | .fin => false
 
-@[simp] theorem CPc.inStop_unborn : (CPc.unborn).inStop = false := rfl
-@[simp] theorem CPc.inStop_bstart : (CPc.bstart).inStop = false := rfl
-@[simp] theorem CPc.inStop_createB : (CPc.createB).inStop = false := rfl
-@[simp] theorem CPc.inStop_idle : (CPc.idle).inStop = false := rfl
-@[simp] theorem CPc.inStop_startCreate : (CPc.startCreate).inStop = false := rfl
-@[simp] theorem CPc.inStop_trigLock_user : (CPc.trigLock .user).inStop = false := rfl
-@[simp] theorem CPc.inStop_trigLock_stop_g (g : Bool) : (CPc.trigLock (.stop g)).inStop = true := rfl
-@[simp] theorem CPc.inStop_trigLock_setoff : (CPc.trigLock .setoff).inStop = false := rfl
-@[simp] theorem CPc.inStop_trigNotify_user : (CPc.trigNotify .user).inStop = false := rfl
-@[simp] theorem CPc.inStop_trigNotify_stop_g (g : Bool) : (CPc.trigNotify (.stop g)).inStop = true := rfl
-@[simp] theorem CPc.inStop_trigNotify_setoff : (CPc.trigNotify .setoff).inStop = false := rfl
-@[simp] theorem CPc.inStop_stopNotifyF_g (g : Bool) : (CPc.stopNotifyF g).inStop = true := rfl
-@[simp] theorem CPc.inStop_stopJoin_g (g : Bool) : (CPc.stopJoin g).inStop = true := rfl
-@[simp] theorem CPc.inStop_setLock_true : (CPc.setLock true).inStop = false := rfl
-@[simp] theorem CPc.inStop_setLock_false : (CPc.setLock false).inStop = false := rfl
-@[simp] theorem CPc.inStop_getLock : (CPc.getLock).inStop = false := rfl
-@[simp] theorem CPc.inStop_getWait : (CPc.getWait).inStop = false := rfl
-@[simp] theorem CPc.inStop_getAsleep_true : (CPc.getAsleep true).inStop = false := rfl
-@[simp] theorem CPc.inStop_getAsleep_false : (CPc.getAsleep false).inStop = false := rfl
-@[simp] theorem CPc.inStop_joinB : (CPc.joinB).inStop = false := rfl
-@[simp] theorem CPc.inStop_exit : (CPc.exit).inStop = false := rfl
-@[simp] theorem CPc.inStop_fin : (CPc.fin).inStop = false := rfl
+@[simp, grind =] theorem CPc.inStop_unborn : (CPc.unborn).inStop = false := rfl
+@[simp, grind =] theorem CPc.inStop_bstart : (CPc.bstart).inStop = false := rfl
+@[simp, grind =] theorem CPc.inStop_createB : (CPc.createB).inStop = false := rfl
+@[simp, grind =] theorem CPc.inStop_idle : (CPc.idle).inStop = false := rfl
+@[simp, grind =] theorem CPc.inStop_startCreate : (CPc.startCreate).inStop = false := rfl
+@[simp, grind =] theorem CPc.inStop_trigLock_user : (CPc.trigLock .user).inStop = false := rfl
+@[simp, grind =] theorem CPc.inStop_trigLock_stop_g (g : Bool) : (CPc.trigLock (.stop g)).inStop = true := rfl
+@[simp, grind =] theorem CPc.inStop_trigLock_setoff : (CPc.trigLock .setoff).inStop = false := rfl
+@[simp, grind =] theorem CPc.inStop_trigNotify_user : (CPc.trigNotify .user).inStop = false := rfl
+@[simp, grind =] theorem CPc.inStop_trigNotify_stop_g (g : Bool) : (CPc.trigNotify (.stop g)).inStop = true := rfl
+@[simp, grind =] theorem CPc.inStop_trigNotify_setoff : (CPc.trigNotify .setoff).inStop = false := rfl
+@[simp, grind =] theorem CPc.inStop_stopNotifyF_g (g : Bool) : (CPc.stopNotifyF g).inStop = true := rfl
+@[simp, grind =] theorem CPc.inStop_stopJoin_g (g : Bool) : (CPc.stopJoin g).inStop = true := rfl
+@[simp, grind =] theorem CPc.inStop_setLock_true : (CPc.setLock true).inStop = false := rfl
+@[simp, grind =] theorem CPc.inStop_setLock_false : (CPc.setLock false).inStop = false := rfl
+@[simp, grind =] theorem CPc.inStop_getLock : (CPc.getLock).inStop = false := rfl
+@[simp, grind =] theorem CPc.inStop_getWait : (CPc.getWait).inStop = false := rfl
+@[simp, grind =] theorem CPc.inStop_getAsleep_true : (CPc.getAsleep true).inStop = false := rfl
+@[simp, grind =] theorem CPc.inStop_getAsleep_false : (CPc.getAsleep false).inStop = false := rfl
+@[simp, grind =] theorem CPc.inStop_joinB : (CPc.joinB).inStop = false := rfl
+@[simp, grind =] theorem CPc.inStop_exit : (CPc.exit).inStop = false := rfl
+@[simp, grind =] theorem CPc.inStop_fin : (CPc.fin).inStop = false := rfl
 
 def CPc.getSleeping : CPc → Bool
   | .unborn => false
@@ -263,28 +263,28 @@ def CPc.getSleeping : CPc → Bool
   | .exit => false
   | .fin => false
 
-@[simp] theorem CPc.getSleeping_unborn : (CPc.unborn).getSleeping = false := rfl
-@[simp] theorem CPc.getSleeping_bstart : (CPc.bstart).getSleeping = false := rfl
-@[simp] theorem CPc.getSleeping_createB : (CPc.createB).getSleeping = false := rfl
-@[simp] theorem CPc.getSleeping_idle : (CPc.idle).getSleeping = false := rfl
-@[simp] theorem CPc.getSleeping_startCreate : (CPc.startCreate).getSleeping = false := rfl
-@[simp] theorem CPc.getSleeping_trigLock_user : (CPc.trigLock .user).getSleeping = false := rfl
-@[simp] theorem CPc.getSleeping_trigLock_stop_g (g : Bool) : (CPc.trigLock (.stop g)).getSleeping = false := rfl
-@[simp] theorem CPc.getSleeping_trigLock_setoff : (CPc.trigLock .setoff).getSleeping = false := rfl
-@[simp] theorem CPc.getSleeping_trigNotify_user : (CPc.trigNotify .user).getSleeping = false := rfl
-@[simp] theorem CPc.getSleeping_trigNotify_stop_g (g : Bool) : (CPc.trigNotify (.stop g)).getSleeping = false := rfl
-@[simp] theorem CPc.getSleeping_trigNotify_setoff : (CPc.trigNotify .setoff).getSleeping = false := rfl
-@[simp] theorem CPc.getSleeping_stopNotifyF_g (g : Bool) : (CPc.stopNotifyF g).getSleeping = false := rfl
-@[simp] theorem CPc.getSleeping_stopJoin_g (g : Bool) : (CPc.stopJoin g).getSleeping = false := rfl
-@[simp] theorem CPc.getSleeping_setLock_true : (CPc.setLock true).getSleeping = false := rfl
-@[simp] theorem CPc.getSleeping_setLock_false : (CPc.setLock false).getSleeping = false := rfl
-@[simp] theorem CPc.getSleeping_getLock : (CPc.getLock).getSleeping = false := rfl
-@[simp] theorem CPc.getSleeping_getWait : (CPc.getWait).getSleeping = true := rfl
-@[simp] theorem CPc.getSleeping_getAsleep_true : (CPc.getAsleep true).getSleeping = false := rfl
-@[simp] theorem CPc.getSleeping_getAsleep_false : (CPc.getAsleep false).getSleeping = true := rfl
-@[simp] theorem CPc.getSleeping_joinB : (CPc.joinB).getSleeping = false := rfl
-@[simp] theorem CPc.getSleeping_exit : (CPc.exit).getSleeping = false := rfl
-@[simp] theorem CPc.getSleeping_fin : (CPc.fin).getSleeping = false := rfl
+@[simp, grind =] theorem CPc.getSleeping_unborn : (CPc.unborn).getSleeping = false := rfl
+@[simp, grind =] theorem CPc.getSleeping_bstart : (CPc.bstart).getSleeping = false := rfl
+@[simp, grind =] theorem CPc.getSleeping_createB : (CPc.createB).getSleeping = false := rfl
+@[simp, grind =] theorem CPc.getSleeping_idle : (CPc.idle).getSleeping = false := rfl
+@[simp, grind =] theorem CPc.getSleeping_startCreate : (CPc.startCreate).getSleeping = false := rfl
+@[simp, grind =] theorem CPc.getSleeping_trigLock_user : (CPc.trigLock .user).getSleeping = false := rfl
+@[simp, grind =] theorem CPc.getSleeping_trigLock_stop_g (g : Bool) : (CPc.trigLock (.stop g)).getSleeping = false := rfl
+@[simp, grind =] theorem CPc.getSleeping_trigLock_setoff : (CPc.trigLock .setoff).getSleeping = false := rfl
+@[simp, grind =] theorem CPc.getSleeping_trigNotify_user : (CPc.trigNotify .user).getSleeping = false := rfl
+@[simp, grind =] theorem CPc.getSleeping_trigNotify_stop_g (g : Bool) : (CPc.trigNotify (.stop g)).getSleeping = false := rfl
+@[simp, grind =] theorem CPc.getSleeping_trigNotify_setoff : (CPc.trigNotify .setoff).getSleeping = false := rfl
+@[simp, grind =] theorem CPc.getSleeping_stopNotifyF_g (g : Bool) : (CPc.stopNotifyF g).getSleeping = false := rfl
+@[simp, grind =] theorem CPc.getSleeping_stopJoin_g (g : Bool) : (CPc.stopJoin g).getSleeping = false := rfl
+@[simp, grind =] theorem CPc.getSleeping_setLock_true : (CPc.setLock true).getSleeping = false := rfl
+@[simp, grind =] theorem CPc.getSleeping_setLock_false : (CPc.setLock false).getSleeping = false := rfl
+@[simp, grind =] theorem CPc.getSleeping_getLock : (CPc.getLock).getSleeping = false := rfl
+@[simp, grind =] theorem CPc.getSleeping_getWait : (CPc.getWait).getSleeping = true := rfl
+@[simp, grind =] theorem CPc.getSleeping_getAsleep_true : (CPc.getAsleep true).getSleeping = false := rfl
+@[simp, grind =] theorem CPc.getSleeping_getAsleep_false : (CPc.getAsleep false).getSleeping = true := rfl
+@[simp, grind =] theorem CPc.getSleeping_joinB : (CPc.joinB).getSleeping = false := rfl
+@[simp, grind =] theorem CPc.getSleeping_exit : (CPc.exit).getSleeping = false := rfl
+@[simp, grind =] theorem CPc.getSleeping_fin : (CPc.fin).getSleeping = false := rfl
 
 def CPc.setoffPending : CPc → Bool
   | .unborn => false
@@ -310,51 +310,51 @@ def CPc.setoffPending : CPc → Bool
   | .exit => false
   | .fin => false
 
-@[simp] theorem CPc.setoffPending_unborn : (CPc.unborn).setoffPending = false := rfl
-@[simp] theorem CPc.setoffPending_bstart : (CPc.bstart).setoffPending = false := rfl
-@[simp] theorem CPc.setoffPending_createB : (CPc.createB).setoffPending = false := rfl
-@[simp] theorem CPc.setoffPending_idle : (CPc.idle).setoffPending = false := rfl
-@[simp] theorem CPc.setoffPending_startCreate : (CPc.startCreate).setoffPending = false := rfl
-@[simp] theorem CPc.setoffPending_trigLock_user : (CPc.trigLock .user).setoffPending = false := rfl
-@[simp] theorem CPc.setoffPending_trigLock_stop_g (g : Bool) : (CPc.trigLock (.stop g)).setoffPending = false := rfl
-@[simp] theorem CPc.setoffPending_trigLock_setoff : (CPc.trigLock .setoff).setoffPending = true := rfl
-@[simp] theorem CPc.setoffPending_trigNotify_user : (CPc.trigNotify .user).setoffPending = false := rfl
-@[simp] theorem CPc.setoffPending_trigNotify_stop_g (g : Bool) : (CPc.trigNotify (.stop g)).setoffPending = false := rfl
-@[simp] theorem CPc.setoffPending_trigNotify_setoff : (CPc.trigNotify .setoff).setoffPending = true := rfl
-@[simp] theorem CPc.setoffPending_stopNotifyF_g (g : Bool) : (CPc.stopNotifyF g).setoffPending = false := rfl
-@[simp] theorem CPc.setoffPending_stopJoin_g (g : Bool) : (CPc.stopJoin g).setoffPending = false := rfl
-@[simp] theorem CPc.setoffPending_setLock_true : (CPc.setLock true).setoffPending = false := rfl
-@[simp] theorem CPc.setoffPending_setLock_false : (CPc.setLock false).setoffPending = true := rfl
-@[simp] theorem CPc.setoffPending_getLock : (CPc.getLock).setoffPending = false := rfl
-@[simp] theorem CPc.setoffPending_getWait : (CPc.getWait).setoffPending = false := rfl
-@[simp] theorem CPc.setoffPending_getAsleep_true : (CPc.getAsleep true).setoffPending = false := rfl
-@[simp] theorem CPc.setoffPending_getAsleep_false : (CPc.getAsleep false).setoffPending = false := rfl
-@[simp] theorem CPc.setoffPending_joinB : (CPc.joinB).setoffPending = false := rfl
-@[simp] theorem CPc.setoffPending_exit : (CPc.exit).setoffPending = false := rfl
-@[simp] theorem CPc.setoffPending_fin : (CPc.fin).setoffPending = false := rfl
+@[simp, grind =] theorem CPc.setoffPending_unborn : (CPc.unborn).setoffPending = false := rfl
+@[simp, grind =] theorem CPc.setoffPending_bstart : (CPc.bstart).setoffPending = false := rfl
+@[simp, grind =] theorem CPc.setoffPending_createB : (CPc.createB).setoffPending = false := rfl
+@[simp, grind =] theorem CPc.setoffPending_idle : (CPc.idle).setoffPending = false := rfl
+@[simp, grind =] theorem CPc.setoffPending_startCreate : (CPc.startCreate).setoffPending = false := rfl
+@[simp, grind =] theorem CPc.setoffPending_trigLock_user : (CPc.trigLock .user).setoffPending = false := rfl
+@[simp, grind =] theorem CPc.setoffPending_trigLock_stop_g (g : Bool) : (CPc.trigLock (.stop g)).setoffPending = false := rfl
+@[simp, grind =] theorem CPc.setoffPending_trigLock_setoff : (CPc.trigLock .setoff).setoffPending = true := rfl
+@[simp, grind =] theorem CPc.setoffPending_trigNotify_user : (CPc.trigNotify .user).setoffPending = false := rfl
+@[simp, grind =] theorem CPc.setoffPending_trigNotify_stop_g (g : Bool) : (CPc.trigNotify (.stop g)).setoffPending = false := rfl
+@[simp, grind =] theorem CPc.setoffPending_trigNotify_setoff : (CPc.trigNotify .setoff).setoffPending = true := rfl
+@[simp, grind =] theorem CPc.setoffPending_stopNotifyF_g (g : Bool) : (CPc.stopNotifyF g).setoffPending = false := rfl
+@[simp, grind =] theorem CPc.setoffPending_stopJoin_g (g : Bool) : (CPc.stopJoin g).setoffPending = false := rfl
+@[simp, grind =] theorem CPc.setoffPending_setLock_true : (CPc.setLock true).setoffPending = false := rfl
+@[simp, grind =] theorem CPc.setoffPending_setLock_false : (CPc.setLock false).setoffPending = true := rfl
+@[simp, grind =] theorem CPc.setoffPending_getLock : (CPc.getLock).setoffPending = false := rfl
+@[simp, grind =] theorem CPc.setoffPending_getWait : (CPc.getWait).setoffPending = false := rfl
+@[simp, grind =] theorem CPc.setoffPending_getAsleep_true : (CPc.getAsleep true).setoffPending = false := rfl
+@[simp, grind =] theorem CPc.setoffPending_getAsleep_false : (CPc.getAsleep false).setoffPending = false := rfl
+@[simp, grind =] theorem CPc.setoffPending_joinB : (CPc.joinB).setoffPending = false := rfl
+@[simp, grind =] theorem CPc.setoffPending_exit : (CPc.exit).setoffPending = false := rfl
+@[simp, grind =] theorem CPc.setoffPending_fin : (CPc.fin).setoffPending = false := rfl
 
-@[simp] theorem CPc.quiet_unborn : (CPc.unborn).quiet = true := rfl
-@[simp] theorem CPc.quiet_bstart : (CPc.bstart).quiet = true := rfl
-@[simp] theorem CPc.quiet_createB : (CPc.createB).quiet = true := rfl
-@[simp] theorem CPc.quiet_idle : (CPc.idle).quiet = true := rfl
-@[simp] theorem CPc.quiet_startCreate : (CPc.startCreate).quiet = false := rfl
-@[simp] theorem CPc.quiet_trigLock_user : (CPc.trigLock .user).quiet = false := rfl
-@[simp] theorem CPc.quiet_trigLock_stop_g (g : Bool) : (CPc.trigLock (.stop g)).quiet = false := rfl
-@[simp] theorem CPc.quiet_trigLock_setoff : (CPc.trigLock .setoff).quiet = false := rfl
-@[simp] theorem CPc.quiet_trigNotify_user : (CPc.trigNotify .user).quiet = false := rfl
-@[simp] theorem CPc.quiet_trigNotify_stop_g (g : Bool) : (CPc.trigNotify (.stop g)).quiet = false := rfl
-@[simp] theorem CPc.quiet_trigNotify_setoff : (CPc.trigNotify .setoff).quiet = false := rfl
-@[simp] theorem CPc.quiet_stopNotifyF_g (g : Bool) : (CPc.stopNotifyF g).quiet = false := rfl
-@[simp] theorem CPc.quiet_stopJoin_g (g : Bool) : (CPc.stopJoin g).quiet = false := rfl
-@[simp] theorem CPc.quiet_setLock_true : (CPc.setLock true).quiet = false := rfl
-@[simp] theorem CPc.quiet_setLock_false : (CPc.setLock false).quiet = false := rfl
-@[simp] theorem CPc.quiet_getLock : (CPc.getLock).quiet = false := rfl
-@[simp] theorem CPc.quiet_getWait : (CPc.getWait).quiet = false := rfl
-@[simp] theorem CPc.quiet_getAsleep_true : (CPc.getAsleep true).quiet = false := rfl
-@[simp] theorem CPc.quiet_getAsleep_false : (CPc.getAsleep false).quiet = false := rfl
-@[simp] theorem CPc.quiet_joinB : (CPc.joinB).quiet = true := rfl
-@[simp] theorem CPc.quiet_exit : (CPc.exit).quiet = true := rfl
-@[simp] theorem CPc.quiet_fin : (CPc.fin).quiet = true := rfl
+@[simp, grind =] theorem CPc.quiet_unborn : (CPc.unborn).quiet = true := rfl
+@[simp, grind =] theorem CPc.quiet_bstart : (CPc.bstart).quiet = true := rfl
+@[simp, grind =] theorem CPc.quiet_createB : (CPc.createB).quiet = true := rfl
+@[simp, grind =] theorem CPc.quiet_idle : (CPc.idle).quiet = true := rfl
+@[simp, grind =] theorem CPc.quiet_startCreate : (CPc.startCreate).quiet = false := rfl
+@[simp, grind =] theorem CPc.quiet_trigLock_user : (CPc.trigLock .user).quiet = false := rfl
+@[simp, grind =] theorem CPc.quiet_trigLock_stop_g (g : Bool) : (CPc.trigLock (.stop g)).quiet = false := rfl
+@[simp, grind =] theorem CPc.quiet_trigLock_setoff : (CPc.trigLock .setoff).quiet = false := rfl
+@[simp, grind =] theorem CPc.quiet_trigNotify_user : (CPc.trigNotify .user).quiet = false := rfl
+@[simp, grind =] theorem CPc.quiet_trigNotify_stop_g (g : Bool) : (CPc.trigNotify (.stop g)).quiet = false := rfl
+@[simp, grind =] theorem CPc.quiet_trigNotify_setoff : (CPc.trigNotify .setoff).quiet = false := rfl
+@[simp, grind =] theorem CPc.quiet_stopNotifyF_g (g : Bool) : (CPc.stopNotifyF g).quiet = false := rfl
+@[simp, grind =] theorem CPc.quiet_stopJoin_g (g : Bool) : (CPc.stopJoin g).quiet = false := rfl
+@[simp, grind =] theorem CPc.quiet_setLock_true : (CPc.setLock true).quiet = false := rfl
+@[simp, grind =] theorem CPc.quiet_setLock_false : (CPc.setLock false).quiet = false := rfl
+@[simp, grind =] theorem CPc.quiet_getLock : (CPc.getLock).quiet = false := rfl
+@[simp, grind =] theorem CPc.quiet_getWait : (CPc.getWait).quiet = false := rfl
+@[simp, grind =] theorem CPc.quiet_getAsleep_true : (CPc.getAsleep true).quiet = false := rfl
+@[simp, grind =] theorem CPc.quiet_getAsleep_false : (CPc.getAsleep false).quiet = false := rfl
+@[simp, grind =] theorem CPc.quiet_joinB : (CPc.joinB).quiet = true := rfl
+@[simp, grind =] theorem CPc.quiet_exit : (CPc.exit).quiet = true := rfl
+@[simp, grind =] theorem CPc.quiet_fin : (CPc.fin).quiet = true := rfl
 
 def CPc.inSet : CPc → Bool
   | .unborn => false
@@ -380,28 +380,28 @@ def CPc.inSet : CPc → Bool
   | .exit => false
   | .fin => false
 
-@[simp] theorem CPc.inSet_unborn : (CPc.unborn).inSet = false := rfl
-@[simp] theorem CPc.inSet_bstart : (CPc.bstart).inSet = false := rfl
-@[simp] theorem CPc.inSet_createB : (CPc.createB).inSet = false := rfl
-@[simp] theorem CPc.inSet_idle : (CPc.idle).inSet = false := rfl
-@[simp] theorem CPc.inSet_startCreate : (CPc.startCreate).inSet = false := rfl
-@[simp] theorem CPc.inSet_trigLock_user : (CPc.trigLock .user).inSet = false := rfl
-@[simp] theorem CPc.inSet_trigLock_stop_g (g : Bool) : (CPc.trigLock (.stop g)).inSet = false := rfl
-@[simp] theorem CPc.inSet_trigLock_setoff : (CPc.trigLock .setoff).inSet = true := rfl
-@[simp] theorem CPc.inSet_trigNotify_user : (CPc.trigNotify .user).inSet = false := rfl
-@[simp] theorem CPc.inSet_trigNotify_stop_g (g : Bool) : (CPc.trigNotify (.stop g)).inSet = false := rfl
-@[simp] theorem CPc.inSet_trigNotify_setoff : (CPc.trigNotify .setoff).inSet = true := rfl
-@[simp] theorem CPc.inSet_stopNotifyF_g (g : Bool) : (CPc.stopNotifyF g).inSet = false := rfl
-@[simp] theorem CPc.inSet_stopJoin_g (g : Bool) : (CPc.stopJoin g).inSet = false := rfl
-@[simp] theorem CPc.inSet_setLock_true : (CPc.setLock true).inSet = true := rfl
-@[simp] theorem CPc.inSet_setLock_false : (CPc.setLock false).inSet = true := rfl
-@[simp] theorem CPc.inSet_getLock : (CPc.getLock).inSet = false := rfl
-@[simp] theorem CPc.inSet_getWait : (CPc.getWait).inSet = false := rfl
-@[simp] theorem CPc.inSet_getAsleep_true : (CPc.getAsleep true).inSet = false := rfl
-@[simp] theorem CPc.inSet_getAsleep_false : (CPc.getAsleep false).inSet = false := rfl
-@[simp] theorem CPc.inSet_joinB : (CPc.joinB).inSet = false := rfl
-@[simp] theorem CPc.inSet_exit : (CPc.exit).inSet = false := rfl
-@[simp] theorem CPc.inSet_fin : (CPc.fin).inSet = false := rfl
+@[simp, grind =] theorem CPc.inSet_unborn : (CPc.unborn).inSet = false := rfl
+@[simp, grind =] theorem CPc.inSet_bstart : (CPc.bstart).inSet = false := rfl
+@[simp, grind =] theorem CPc.inSet_createB : (CPc.createB).inSet = false := rfl
+@[simp, grind =] theorem CPc.inSet_idle : (CPc.idle).inSet = false := rfl
+@[simp, grind =] theorem CPc.inSet_startCreate : (CPc.startCreate).inSet = false := rfl
+@[simp, grind =] theorem CPc.inSet_trigLock_user : (CPc.trigLock .user).inSet = false := rfl
+@[simp, grind =] theorem CPc.inSet_trigLock_stop_g (g : Bool) : (CPc.trigLock (.stop g)).inSet = false := rfl
+@[simp, grind =] theorem CPc.inSet_trigLock_setoff : (CPc.trigLock .setoff).inSet = true := rfl
+@[simp, grind =] theorem CPc.inSet_trigNotify_user : (CPc.trigNotify .user).inSet = false := rfl
+@[simp, grind =] theorem CPc.inSet_trigNotify_stop_g (g : Bool) : (CPc.trigNotify (.stop g)).inSet = false := rfl
+@[simp, grind =] theorem CPc.inSet_trigNotify_setoff : (CPc.trigNotify .setoff).inSet = true := rfl
+@[simp, grind =] theorem CPc.inSet_stopNotifyF_g (g : Bool) : (CPc.stopNotifyF g).inSet = false := rfl
+@[simp, grind =] theorem CPc.inSet_stopJoin_g (g : Bool) : (CPc.stopJoin g).inSet = false := rfl
+@[simp, grind =] theorem CPc.inSet_setLock_true : (CPc.setLock true).inSet = true := rfl
+@[simp, grind =] theorem CPc.inSet_setLock_false : (CPc.setLock false).inSet = true := rfl
+@[simp, grind =] theorem CPc.inSet_getLock : (CPc.getLock).inSet = false := rfl
+@[simp, grind =] theorem CPc.inSet_getWait : (CPc.getWait).inSet = false := rfl
+@[simp, grind =] theorem CPc.inSet_getAsleep_true : (CPc.getAsleep true).inSet = false := rfl
+@[simp, grind =] theorem CPc.inSet_getAsleep_false : (CPc.getAsleep false).inSet = false := rfl
+@[simp, grind =] theorem CPc.inSet_joinB : (CPc.joinB).inSet = false := rfl
+@[simp, grind =] theorem CPc.inSet_exit : (CPc.exit).inSet = false := rfl
+@[simp, grind =] theorem CPc.inSet_fin : (CPc.fin).inSet = false := rfl
 
 def CPc.atTrigNotify : CPc → Bool
   | .unborn => false
@@ -427,28 +427,28 @@ def CPc.atTrigNotify : CPc → Bool
   | .exit => false
   | .fin => false
 
-@[simp] theorem CPc.atTrigNotify_unborn : (CPc.unborn).atTrigNotify = false := rfl
-@[simp] theorem CPc.atTrigNotify_bstart : (CPc.bstart).atTrigNotify = false := rfl
-@[simp] theorem CPc.atTrigNotify_createB : (CPc.createB).atTrigNotify = false := rfl
-@[simp] theorem CPc.atTrigNotify_idle : (CPc.idle).atTrigNotify = false := rfl
-@[simp] theorem CPc.atTrigNotify_startCreate : (CPc.startCreate).atTrigNotify = false := rfl
-@[simp] theorem CPc.atTrigNotify_trigLock_user : (CPc.trigLock .user).atTrigNotify = false := rfl
-@[simp] theorem CPc.atTrigNotify_trigLock_stop_g (g : Bool) : (CPc.trigLock (.stop g)).atTrigNotify = false := rfl
-@[simp] theorem CPc.atTrigNotify_trigLock_setoff : (CPc.trigLock .setoff).atTrigNotify = false := rfl
-@[simp] theorem CPc.atTrigNotify_trigNotify_user : (CPc.trigNotify .user).atTrigNotify = true := rfl
-@[simp] theorem CPc.atTrigNotify_trigNotify_stop_g (g : Bool) : (CPc.trigNotify (.stop g)).atTrigNotify = true := rfl
-@[simp] theorem CPc.atTrigNotify_trigNotify_setoff : (CPc.trigNotify .setoff).atTrigNotify = true := rfl
-@[simp] theorem CPc.atTrigNotify_stopNotifyF_g (g : Bool) : (CPc.stopNotifyF g).atTrigNotify = false := rfl
-@[simp] theorem CPc.atTrigNotify_stopJoin_g (g : Bool) : (CPc.stopJoin g).atTrigNotify = false := rfl
-@[simp] theorem CPc.atTrigNotify_setLock_true : (CPc.setLock true).atTrigNotify = false := rfl
-@[simp] theorem CPc.atTrigNotify_setLock_false : (CPc.setLock false).atTrigNotify = false := rfl
-@[simp] theorem CPc.atTrigNotify_getLock : (CPc.getLock).atTrigNotify = false := rfl
-@[simp] theorem CPc.atTrigNotify_getWait : (CPc.getWait).atTrigNotify = false := rfl
-@[simp] theorem CPc.atTrigNotify_getAsleep_true : (CPc.getAsleep true).atTrigNotify = false := rfl
-@[simp] theorem CPc.atTrigNotify_getAsleep_false : (CPc.getAsleep false).atTrigNotify = false := rfl
-@[simp] theorem CPc.atTrigNotify_joinB : (CPc.joinB).atTrigNotify = false := rfl
-@[simp] theorem CPc.atTrigNotify_exit : (CPc.exit).atTrigNotify = false := rfl
-@[simp] theorem CPc.atTrigNotify_fin : (CPc.fin).atTrigNotify = false := rfl
+@[simp, grind =] theorem CPc.atTrigNotify_unborn : (CPc.unborn).atTrigNotify = false := rfl
+@[simp, grind =] theorem CPc.atTrigNotify_bstart : (CPc.bstart).atTrigNotify = false := rfl
+@[simp, grind =] theorem CPc.atTrigNotify_createB : (CPc.createB).atTrigNotify = false := rfl
+@[simp, grind =] theorem CPc.atTrigNotify_idle : (CPc.idle).atTrigNotify = false := rfl
+@[simp, grind =] theorem CPc.atTrigNotify_startCreate : (CPc.startCreate).atTrigNotify = false := rfl
+@[simp, grind =] theorem CPc.atTrigNotify_trigLock_user : (CPc.trigLock .user).atTrigNotify = false := rfl
+@[simp, grind =] theorem CPc.atTrigNotify_trigLock_stop_g (g : Bool) : (CPc.trigLock (.stop g)).atTrigNotify = false := rfl
+@[simp, grind =] theorem CPc.atTrigNotify_trigLock_setoff : (CPc.trigLock .setoff).atTrigNotify = false := rfl
+@[simp, grind =] theorem CPc.atTrigNotify_trigNotify_user : (CPc.trigNotify .user).atTrigNotify = true := rfl
+@[simp, grind =] theorem CPc.atTrigNotify_trigNotify_stop_g (g : Bool) : (CPc.trigNotify (.stop g)).atTrigNotify = true := rfl
+@[simp, grind =] theorem CPc.atTrigNotify_trigNotify_setoff : (CPc.trigNotify .setoff).atTrigNotify = true := rfl
+@[simp, grind =] theorem CPc.atTrigNotify_stopNotifyF_g (g : Bool) : (CPc.stopNotifyF g).atTrigNotify = false := rfl
+@[simp, grind =] theorem CPc.atTrigNotify_stopJoin_g (g : Bool) : (CPc.stopJoin g).atTrigNotify = false := rfl
+@[simp, grind =] theorem CPc.atTrigNotify_setLock_true : (CPc.setLock true).atTrigNotify = false := rfl
+@[simp, grind =] theorem CPc.atTrigNotify_setLock_false : (CPc.setLock false).atTrigNotify = false := rfl
+@[simp, grind =] theorem CPc.atTrigNotify_getLock : (CPc.getLock).atTrigNotify = false := rfl
+@[simp, grind =] theorem CPc.atTrigNotify_getWait : (CPc.getWait).atTrigNotify = false := rfl
+@[simp, grind =] theorem CPc.atTrigNotify_getAsleep_true : (CPc.getAsleep true).atTrigNotify = false := rfl
+@[simp, grind =] theorem CPc.atTrigNotify_getAsleep_false : (CPc.getAsleep false).atTrigNotify = false := rfl
+@[simp, grind =] theorem CPc.atTrigNotify_joinB : (CPc.joinB).atTrigNotify = false := rfl
+@[simp, grind =] theorem CPc.atTrigNotify_exit : (CPc.exit).atTrigNotify = false := rfl
+@[simp, grind =] theorem CPc.atTrigNotify_fin : (CPc.fin).atTrigNotify = false := rfl
 
 def CPc.inGet : CPc → Bool
   | .unborn => false
@@ -474,28 +474,28 @@ def CPc.inGet : CPc → Bool
   | .exit => false
   | .fin => false
 
-@[simp] theorem CPc.inGet_unborn : (CPc.unborn).inGet = false := rfl
-@[simp] theorem CPc.inGet_bstart : (CPc.bstart).inGet = false := rfl
-@[simp] theorem CPc.inGet_createB : (CPc.createB).inGet = false := rfl
-@[simp] theorem CPc.inGet_idle : (CPc.idle).inGet = false := rfl
-@[simp] theorem CPc.inGet_startCreate : (CPc.startCreate).inGet = false := rfl
-@[simp] theorem CPc.inGet_trigLock_user : (CPc.trigLock .user).inGet = false := rfl
-@[simp] theorem CPc.inGet_trigLock_stop_g (g : Bool) : (CPc.trigLock (.stop g)).inGet = false := rfl
-@[simp] theorem CPc.inGet_trigLock_setoff : (CPc.trigLock .setoff).inGet = false := rfl
-@[simp] theorem CPc.inGet_trigNotify_user : (CPc.trigNotify .user).inGet = false := rfl
-@[simp] theorem CPc.inGet_trigNotify_stop_g (g : Bool) : (CPc.trigNotify (.stop g)).inGet = false := rfl
-@[simp] theorem CPc.inGet_trigNotify_setoff : (CPc.trigNotify .setoff).inGet = false := rfl
-@[simp] theorem CPc.inGet_stopNotifyF_g (g : Bool) : (CPc.stopNotifyF g).inGet = false := rfl
-@[simp] theorem CPc.inGet_stopJoin_g (g : Bool) : (CPc.stopJoin g).inGet = false := rfl
-@[simp] theorem CPc.inGet_setLock_true : (CPc.setLock true).inGet = false := rfl
-@[simp] theorem CPc.inGet_setLock_false : (CPc.setLock false).inGet = false := rfl
-@[simp] theorem CPc.inGet_getLock : (CPc.getLock).inGet = true := rfl
-@[simp] theorem CPc.inGet_getWait : (CPc.getWait).inGet = true := rfl
-@[simp] theorem CPc.inGet_getAsleep_true : (CPc.getAsleep true).inGet = true := rfl
-@[simp] theorem CPc.inGet_getAsleep_false : (CPc.getAsleep false).inGet = true := rfl
-@[simp] theorem CPc.inGet_joinB : (CPc.joinB).inGet = false := rfl
-@[simp] theorem CPc.inGet_exit : (CPc.exit).inGet = false := rfl
-@[simp] theorem CPc.inGet_fin : (CPc.fin).inGet = false := rfl
+@[simp, grind =] theorem CPc.inGet_unborn : (CPc.unborn).inGet = false := rfl
+@[simp, grind =] theorem CPc.inGet_bstart : (CPc.bstart).inGet = false := rfl
+@[simp, grind =] theorem CPc.inGet_createB : (CPc.createB).inGet = false := rfl
+@[simp, grind =] theorem CPc.inGet_idle : (CPc.idle).inGet = false := rfl
+@[simp, grind =] theorem CPc.inGet_startCreate : (CPc.startCreate).inGet = false := rfl
+@[simp, grind =] theorem CPc.inGet_trigLock_user : (CPc.trigLock .user).inGet = false := rfl
+@[simp, grind =] theorem CPc.inGet_trigLock_stop_g (g : Bool) : (CPc.trigLock (.stop g)).inGet = false := rfl
+@[simp, grind =] theorem CPc.inGet_trigLock_setoff : (CPc.trigLock .setoff).inGet = false := rfl
+@[simp, grind =] theorem CPc.inGet_trigNotify_user : (CPc.trigNotify .user).inGet = false := rfl
+@[simp, grind =] theorem CPc.inGet_trigNotify_stop_g (g : Bool) : (CPc.trigNotify (.stop g)).inGet = false := rfl
+@[simp, grind =] theorem CPc.inGet_trigNotify_setoff : (CPc.trigNotify .setoff).inGet = false := rfl
+@[simp, grind =] theorem CPc.inGet_stopNotifyF_g (g : Bool) : (CPc.stopNotifyF g).inGet = false := rfl
+@[simp, grind =] theorem CPc.inGet_stopJoin_g (g : Bool) : (CPc.stopJoin g).inGet = false := rfl
+@[simp, grind =] theorem CPc.inGet_setLock_true : (CPc.setLock true).inGet = false := rfl
+@[simp, grind =] theorem CPc.inGet_setLock_false : (CPc.setLock false).inGet = false := rfl
+@[simp, grind =] theorem CPc.inGet_getLock : (CPc.getLock).inGet = true := rfl
+@[simp, grind =] theorem CPc.inGet_getWait : (CPc.getWait).inGet = true := rfl
+@[simp, grind =] theorem CPc.inGet_getAsleep_true : (CPc.getAsleep true).inGet = true := rfl
+@[simp, grind =] theorem CPc.inGet_getAsleep_false : (CPc.getAsleep false).inGet = true := rfl
+@[simp, grind =] theorem CPc.inGet_joinB : (CPc.joinB).inGet = false := rfl
+@[simp, grind =] theorem CPc.inGet_exit : (CPc.exit).inGet = false := rfl
+@[simp, grind =] theorem CPc.inGet_fin : (CPc.fin).inGet = false := rfl
 
 def SPc.holds : SPc → Bool
   | .none => false
@@ -509,16 +509,16 @@ def SPc.holds : SPc → Bool
   | .notifyF => true
   | .fin => false
 
-@[simp] theorem SPc.holds_none : (SPc.none).holds = false := rfl
-@[simp] theorem SPc.holds_start : (SPc.start).holds = false := rfl
-@[simp] theorem SPc.holds_lock1 : (SPc.lock1).holds = false := rfl
-@[simp] theorem SPc.holds_waitT : (SPc.waitT).holds = true := rfl
-@[simp] theorem SPc.holds_asleepT_true : (SPc.asleepT true).holds = false := rfl
-@[simp] theorem SPc.holds_asleepT_false : (SPc.asleepT false).holds = false := rfl
-@[simp] theorem SPc.holds_sleep : (SPc.sleep).holds = false := rfl
-@[simp] theorem SPc.holds_lock2 : (SPc.lock2).holds = false := rfl
-@[simp] theorem SPc.holds_notifyF : (SPc.notifyF).holds = true := rfl
-@[simp] theorem SPc.holds_fin : (SPc.fin).holds = false := rfl
+@[simp, grind =] theorem SPc.holds_none : (SPc.none).holds = false := rfl
+@[simp, grind =] theorem SPc.holds_start : (SPc.start).holds = false := rfl
+@[simp, grind =] theorem SPc.holds_lock1 : (SPc.lock1).holds = false := rfl
+@[simp, grind =] theorem SPc.holds_waitT : (SPc.waitT).holds = true := rfl
+@[simp, grind =] theorem SPc.holds_asleepT_true : (SPc.asleepT true).holds = false := rfl
+@[simp, grind =] theorem SPc.holds_asleepT_false : (SPc.asleepT false).holds = false := rfl
+@[simp, grind =] theorem SPc.holds_sleep : (SPc.sleep).holds = false := rfl
+@[simp, grind =] theorem SPc.holds_lock2 : (SPc.lock2).holds = false := rfl
+@[simp, grind =] theorem SPc.holds_notifyF : (SPc.notifyF).holds = true := rfl
+@[simp, grind =] theorem SPc.holds_fin : (SPc.fin).holds = false := rfl
 
 def SPc.alive : SPc → Bool
   | .none => false
@@ -532,16 +532,16 @@ def SPc.alive : SPc → Bool
   | .notifyF => true
   | .fin => false
 
-@[simp] theorem SPc.alive_none : (SPc.none).alive = false := rfl
-@[simp] theorem SPc.alive_start : (SPc.start).alive = true := rfl
-@[simp] theorem SPc.alive_lock1 : (SPc.lock1).alive = true := rfl
-@[simp] theorem SPc.alive_waitT : (SPc.waitT).alive = true := rfl
-@[simp] theorem SPc.alive_asleepT_true : (SPc.asleepT true).alive = true := rfl
-@[simp] theorem SPc.alive_asleepT_false : (SPc.asleepT false).alive = true := rfl
-@[simp] theorem SPc.alive_sleep : (SPc.sleep).alive = true := rfl
-@[simp] theorem SPc.alive_lock2 : (SPc.lock2).alive = true := rfl
-@[simp] theorem SPc.alive_notifyF : (SPc.notifyF).alive = true := rfl
-@[simp] theorem SPc.alive_fin : (SPc.fin).alive = false := rfl
+@[simp, grind =] theorem SPc.alive_none : (SPc.none).alive = false := rfl
+@[simp, grind =] theorem SPc.alive_start : (SPc.start).alive = true := rfl
+@[simp, grind =] theorem SPc.alive_lock1 : (SPc.lock1).alive = true := rfl
+@[simp, grind =] theorem SPc.alive_waitT : (SPc.waitT).alive = true := rfl
+@[simp, grind =] theorem SPc.alive_asleepT_true : (SPc.asleepT true).alive = true := rfl
+@[simp, grind =] theorem SPc.alive_asleepT_false : (SPc.asleepT false).alive = true := rfl
+@[simp, grind =] theorem SPc.alive_sleep : (SPc.sleep).alive = true := rfl
+@[simp, grind =] theorem SPc.alive_lock2 : (SPc.lock2).alive = true := rfl
+@[simp, grind =] theorem SPc.alive_notifyF : (SPc.notifyF).alive = true := rfl
+@[simp, grind =] theorem SPc.alive_fin : (SPc.fin).alive = false := rfl
 
 def SPc.inLoop : SPc → Bool
   | .none => false
@@ -555,16 +555,16 @@ def SPc.inLoop : SPc → Bool
   | .notifyF => true
   | .fin => false
 
-@[simp] theorem SPc.inLoop_none : (SPc.none).inLoop = false := rfl
-@[simp] theorem SPc.inLoop_start : (SPc.start).inLoop = false := rfl
-@[simp] theorem SPc.inLoop_lock1 : (SPc.lock1).inLoop = true := rfl
-@[simp] theorem SPc.inLoop_waitT : (SPc.waitT).inLoop = true := rfl
-@[simp] theorem SPc.inLoop_asleepT_true : (SPc.asleepT true).inLoop = true := rfl
-@[simp] theorem SPc.inLoop_asleepT_false : (SPc.asleepT false).inLoop = true := rfl
-@[simp] theorem SPc.inLoop_sleep : (SPc.sleep).inLoop = true := rfl
-@[simp] theorem SPc.inLoop_lock2 : (SPc.lock2).inLoop = true := rfl
-@[simp] theorem SPc.inLoop_notifyF : (SPc.notifyF).inLoop = true := rfl
-@[simp] theorem SPc.inLoop_fin : (SPc.fin).inLoop = false := rfl
+@[simp, grind =] theorem SPc.inLoop_none : (SPc.none).inLoop = false := rfl
+@[simp, grind =] theorem SPc.inLoop_start : (SPc.start).inLoop = false := rfl
+@[simp, grind =] theorem SPc.inLoop_lock1 : (SPc.lock1).inLoop = true := rfl
+@[simp, grind =] theorem SPc.inLoop_waitT : (SPc.waitT).inLoop = true := rfl
+@[simp, grind =] theorem SPc.inLoop_asleepT_true : (SPc.asleepT true).inLoop = true := rfl
+@[simp, grind =] theorem SPc.inLoop_asleepT_false : (SPc.asleepT false).inLoop = true := rfl
+@[simp, grind =] theorem SPc.inLoop_sleep : (SPc.sleep).inLoop = true := rfl
+@[simp, grind =] theorem SPc.inLoop_lock2 : (SPc.lock2).inLoop = true := rfl
+@[simp, grind =] theorem SPc.inLoop_notifyF : (SPc.notifyF).inLoop = true := rfl
+@[simp, grind =] theorem SPc.inLoop_fin : (SPc.fin).inLoop = false := rfl
 
 def SPc.waitingT : SPc → Bool
   | .none => false
@@ -578,16 +578,16 @@ def SPc.waitingT : SPc → Bool
   | .notifyF => false
   | .fin => false
 
-@[simp] theorem SPc.waitingT_none : (SPc.none).waitingT = false := rfl
-@[simp] theorem SPc.waitingT_start : (SPc.start).waitingT = false := rfl
-@[simp] theorem SPc.waitingT_lock1 : (SPc.lock1).waitingT = false := rfl
-@[simp] theorem SPc.waitingT_waitT : (SPc.waitT).waitingT = true := rfl
-@[simp] theorem SPc.waitingT_asleepT_true : (SPc.asleepT true).waitingT = false := rfl
-@[simp] theorem SPc.waitingT_asleepT_false : (SPc.asleepT false).waitingT = true := rfl
-@[simp] theorem SPc.waitingT_sleep : (SPc.sleep).waitingT = false := rfl
-@[simp] theorem SPc.waitingT_lock2 : (SPc.lock2).waitingT = false := rfl
-@[simp] theorem SPc.waitingT_notifyF : (SPc.notifyF).waitingT = false := rfl
-@[simp] theorem SPc.waitingT_fin : (SPc.fin).waitingT = false := rfl
+@[simp, grind =] theorem SPc.waitingT_none : (SPc.none).waitingT = false := rfl
+@[simp, grind =] theorem SPc.waitingT_start : (SPc.start).waitingT = false := rfl
+@[simp, grind =] theorem SPc.waitingT_lock1 : (SPc.lock1).waitingT = false := rfl
+@[simp, grind =] theorem SPc.waitingT_waitT : (SPc.waitT).waitingT = true := rfl
+@[simp, grind =] theorem SPc.waitingT_asleepT_true : (SPc.asleepT true).waitingT = false := rfl
+@[simp, grind =] theorem SPc.waitingT_asleepT_false : (SPc.asleepT false).waitingT = true := rfl
+@[simp, grind =] theorem SPc.waitingT_sleep : (SPc.sleep).waitingT = false := rfl
+@[simp, grind =] theorem SPc.waitingT_lock2 : (SPc.lock2).waitingT = false := rfl
+@[simp, grind =] theorem SPc.waitingT_notifyF : (SPc.notifyF).waitingT = false := rfl
+@[simp, grind =] theorem SPc.waitingT_fin : (SPc.fin).waitingT = false := rfl
 
 def SPc.atLock1 : SPc → Bool
   | .none => false
@@ -601,105 +601,137 @@ def SPc.atLock1 : SPc → Bool
   | .notifyF => false
   | .fin => false
 
-@[simp] theorem SPc.atLock1_none : (SPc.none).atLock1 = false := rfl
-@[simp] theorem SPc.atLock1_start : (SPc.start).atLock1 = false := rfl
-@[simp] theorem SPc.atLock1_lock1 : (SPc.lock1).atLock1 = true := rfl
-@[simp] theorem SPc.atLock1_waitT : (SPc.waitT).atLock1 = false := rfl
-@[simp] theorem SPc.atLock1_asleepT_true : (SPc.asleepT true).atLock1 = true := rfl
-@[simp] theorem SPc.atLock1_asleepT_false : (SPc.asleepT false).atLock1 = false := rfl
-@[simp] theorem SPc.atLock1_sleep : (SPc.sleep).atLock1 = false := rfl
-@[simp] theorem SPc.atLock1_lock2 : (SPc.lock2).atLock1 = false := rfl
-@[simp] theorem SPc.atLock1_notifyF : (SPc.notifyF).atLock1 = false := rfl
-@[simp] theorem SPc.atLock1_fin : (SPc.fin).atLock1 = false := rfl
+@[simp, grind =] theorem SPc.atLock1_none : (SPc.none).atLock1 = false := rfl
+@[simp, grind =] theorem SPc.atLock1_start : (SPc.start).atLock1 = false := rfl
+@[simp, grind =] theorem SPc.atLock1_lock1 : (SPc.lock1).atLock1 = true := rfl
+@[simp, grind =] theorem SPc.atLock1_waitT : (SPc.waitT).atLock1 = false := rfl
+@[simp, grind =] theorem SPc.atLock1_asleepT_true : (SPc.asleepT true).atLock1 = true := rfl
+@[simp, grind =] theorem SPc.atLock1_asleepT_false : (SPc.asleepT false).atLock1 = false := rfl
+@[simp, grind =] theorem SPc.atLock1_sleep : (SPc.sleep).atLock1 = false := rfl
+@[simp, grind =] theorem SPc.atLock1_lock2 : (SPc.lock2).atLock1 = false := rfl
+@[simp, grind =] theorem SPc.atLock1_notifyF : (SPc.notifyF).atLock1 = false := rfl
+@[simp, grind =] theorem SPc.atLock1_fin : (SPc.fin).atLock1 = false := rfl
 
-@[simp] theorem CPc.holds_trigLock_any (k : TCtx) : (CPc.trigLock k).holds = false := by cases k <;> rfl
-@[simp] theorem CPc.holds_trigNotify_any (k : TCtx) : (CPc.trigNotify k).holds = true := by cases k <;> rfl
-@[simp] theorem CPc.holds_setLock_any (en : Bool) : (CPc.setLock en).holds = false := by cases en <;> rfl
-@[simp] theorem CPc.holds_getAsleep_any (n : Bool) : (CPc.getAsleep n).holds = false := by cases n <;> rfl
-@[simp] theorem CPc.stopPre_setLock_any (en : Bool) : (CPc.setLock en).stopPre = false := by cases en <;> rfl
-@[simp] theorem CPc.stopPre_getAsleep_any (n : Bool) : (CPc.getAsleep n).stopPre = false := by cases n <;> rfl
-@[simp] theorem CPc.stopTPre_setLock_any (en : Bool) : (CPc.setLock en).stopTPre = false := by cases en <;> rfl
-@[simp] theorem CPc.stopTPre_getAsleep_any (n : Bool) : (CPc.getAsleep n).stopTPre = false := by cases n <;> rfl
-@[simp] theorem CPc.stopLockPre_trigNotify_any (k : TCtx) : (CPc.trigNotify k).stopLockPre = false := by cases k <;> rfl
-@[simp] theorem CPc.stopLockPre_setLock_any (en : Bool) : (CPc.setLock en).stopLockPre = false := by cases en <;> rfl
-@[simp] theorem CPc.stopLockPre_getAsleep_any (n : Bool) : (CPc.getAsleep n).stopLockPre = false := by cases n <;> rfl
-@[simp] theorem CPc.inStop_setLock_any (en : Bool) : (CPc.setLock en).inStop = false := by cases en <;> rfl
-@[simp] theorem CPc.inStop_getAsleep_any (n : Bool) : (CPc.getAsleep n).inStop = false := by cases n <;> rfl
-@[simp] theorem CPc.getSleeping_trigLock_any (k : TCtx) : (CPc.trigLock k).getSleeping = false := by cases k <;> rfl
-@[simp] theorem CPc.getSleeping_trigNotify_any (k : TCtx) : (CPc.trigNotify k).getSleeping = false := by cases k <;> rfl
-@[simp] theorem CPc.getSleeping_setLock_any (en : Bool) : (CPc.setLock en).getSleeping = false := by cases en <;> rfl
-@[simp] theorem CPc.setoffPending_getAsleep_any (n : Bool) : (CPc.getAsleep n).setoffPending = false := by cases n <;> rfl
-@[simp] theorem CPc.quiet_trigLock_any (k : TCtx) : (CPc.trigLock k).quiet = false := by cases k <;> rfl
-@[simp] theorem CPc.quiet_trigNotify_any (k : TCtx) : (CPc.trigNotify k).quiet = false := by cases k <;> rfl
-@[simp] theorem CPc.quiet_setLock_any (en : Bool) : (CPc.setLock en).quiet = false := by cases en <;> rfl
-@[simp] theorem CPc.quiet_getAsleep_any (n : Bool) : (CPc.getAsleep n).quiet = false := by cases n <;> rfl
-@[simp] theorem CPc.inSet_setLock_any (en : Bool) : (CPc.setLock en).inSet = true := by cases en <;> rfl
-@[simp] theorem CPc.inSet_getAsleep_any (n : Bool) : (CPc.getAsleep n).inSet = false := by cases n <;> rfl
-@[simp] theorem CPc.atTrigNotify_trigLock_any (k : TCtx) : (CPc.trigLock k).atTrigNotify = false := by cases k <;> rfl
-@[simp] theorem CPc.atTrigNotify_trigNotify_any (k : TCtx) : (CPc.trigNotify k).atTrigNotify = true := by cases k <;> rfl
-@[simp] theorem CPc.atTrigNotify_setLock_any (en : Bool) : (CPc.setLock en).atTrigNotify = false := by cases en <;> rfl
-@[simp] theorem CPc.atTrigNotify_getAsleep_any (n : Bool) : (CPc.getAsleep n).atTrigNotify = false := by cases n <;> rfl
-@[simp] theorem CPc.inGet_trigLock_any (k : TCtx) : (CPc.trigLock k).inGet = false := by cases k <;> rfl
-@[simp] theorem CPc.inGet_trigNotify_any (k : TCtx) : (CPc.trigNotify k).inGet = false := by cases k <;> rfl
-@[simp] theorem CPc.inGet_setLock_any (en : Bool) : (CPc.setLock en).inGet = false := by cases en <;> rfl
-@[simp] theorem CPc.inGet_getAsleep_any (n : Bool) : (CPc.getAsleep n).inGet = true := by cases n <;> rfl
-@[simp] theorem SPc.holds_asleepT_any (n : Bool) : (SPc.asleepT n).holds = false := by cases n <;> rfl
-@[simp] theorem SPc.alive_asleepT_any (n : Bool) : (SPc.asleepT n).alive = true := by cases n <;> rfl
-@[simp] theorem SPc.inLoop_asleepT_any (n : Bool) : (SPc.asleepT n).inLoop = true := by cases n <;> rfl
-@[simp] theorem CPc.holds_of_quiet {p : CPc} (h : p.quiet = true) : p.holds = false := by
+@[simp, grind =] theorem CPc.holds_trigLock_any (k : TCtx) : (CPc.trigLock k).holds = false := by cases k <;> rfl
+@[simp, grind =] theorem CPc.holds_trigNotify_any (k : TCtx) : (CPc.trigNotify k).holds = true := by cases k <;> rfl
+@[simp, grind =] theorem CPc.holds_setLock_any (en : Bool) : (CPc.setLock en).holds = false := by cases en <;> rfl
+@[simp, grind =] theorem CPc.holds_getAsleep_any (n : Bool) : (CPc.getAsleep n).holds = false := by cases n <;> rfl
+@[simp, grind =] theorem CPc.stopPre_setLock_any (en : Bool) : (CPc.setLock en).stopPre = false := by cases en <;> rfl
+@[simp, grind =] theorem CPc.stopPre_getAsleep_any (n : Bool) : (CPc.getAsleep n).stopPre = false := by cases n <;> rfl
+@[simp, grind =] theorem CPc.stopTPre_setLock_any (en : Bool) : (CPc.setLock en).stopTPre = false := by cases en <;> rfl
+@[simp, grind =] theorem CPc.stopTPre_getAsleep_any (n : Bool) : (CPc.getAsleep n).stopTPre = false := by cases n <;> rfl
+@[simp, grind =] theorem CPc.stopLockPre_trigNotify_any (k : TCtx) : (CPc.trigNotify k).stopLockPre = false := by cases k <;> rfl
+@[simp, grind =] theorem CPc.stopLockPre_setLock_any (en : Bool) : (CPc.setLock en).stopLockPre = false := by cases en <;> rfl
+@[simp, grind =] theorem CPc.stopLockPre_getAsleep_any (n : Bool) : (CPc.getAsleep n).stopLockPre = false := by cases n <;> rfl
+@[simp, grind =] theorem CPc.inStop_setLock_any (en : Bool) : (CPc.setLock en).inStop = false := by cases en <;> rfl
+@[simp, grind =] theorem CPc.inStop_getAsleep_any (n : Bool) : (CPc.getAsleep n).inStop = false := by cases n <;> rfl
+@[simp, grind =] theorem CPc.getSleeping_trigLock_any (k : TCtx) : (CPc.trigLock k).getSleeping = false := by cases k <;> rfl
+@[simp, grind =] theorem CPc.getSleeping_trigNotify_any (k : TCtx) : (CPc.trigNotify k).getSleeping = false := by cases k <;> rfl
+@[simp, grind =] theorem CPc.getSleeping_setLock_any (en : Bool) : (CPc.setLock en).getSleeping = false := by cases en <;> rfl
+@[simp, grind =] theorem CPc.setoffPending_getAsleep_any (n : Bool) : (CPc.getAsleep n).setoffPending = false := by cases n <;> rfl
+@[simp, grind =] theorem CPc.quiet_trigLock_any (k : TCtx) : (CPc.trigLock k).quiet = false := by cases k <;> rfl
+@[simp, grind =] theorem CPc.quiet_trigNotify_any (k : TCtx) : (CPc.trigNotify k).quiet = false := by cases k <;> rfl
+@[simp, grind =] theorem CPc.quiet_setLock_any (en : Bool) : (CPc.setLock en).quiet = false := by cases en <;> rfl
+@[simp, grind =] theorem CPc.quiet_getAsleep_any (n : Bool) : (CPc.getAsleep n).quiet = false := by cases n <;> rfl
+@[simp, grind =] theorem CPc.inSet_setLock_any (en : Bool) : (CPc.setLock en).inSet = true := by cases en <;> rfl
+@[simp, grind =] theorem CPc.inSet_getAsleep_any (n : Bool) : (CPc.getAsleep n).inSet = false := by cases n <;> rfl
+@[simp, grind =] theorem CPc.atTrigNotify_trigLock_any (k : TCtx) : (CPc.trigLock k).atTrigNotify = false := by cases k <;> rfl
+@[simp, grind =] theorem CPc.atTrigNotify_trigNotify_any (k : TCtx) : (CPc.trigNotify k).atTrigNotify = true := by cases k <;> rfl
+@[simp, grind =] theorem CPc.atTrigNotify_setLock_any (en : Bool) : (CPc.setLock en).atTrigNotify = false := by cases en <;> rfl
+@[simp, grind =] theorem CPc.atTrigNotify_getAsleep_any (n : Bool) : (CPc.getAsleep n).atTrigNotify = false := by cases n <;> rfl
+@[simp, grind =] theorem CPc.inGet_trigLock_any (k : TCtx) : (CPc.trigLock k).inGet = false := by cases k <;> rfl
+@[simp, grind =] theorem CPc.inGet_trigNotify_any (k : TCtx) : (CPc.trigNotify k).inGet = false := by cases k <;> rfl
+@[simp, grind =] theorem CPc.inGet_setLock_any (en : Bool) : (CPc.setLock en).inGet = false := by cases en <;> rfl
+@[simp, grind =] theorem CPc.inGet_getAsleep_any (n : Bool) : (CPc.getAsleep n).inGet = true := by cases n <;> rfl
+@[simp, grind =] theorem SPc.holds_asleepT_any (n : Bool) : (SPc.asleepT n).holds = false := by cases n <;> rfl
+@[simp, grind =] theorem SPc.alive_asleepT_any (n : Bool) : (SPc.asleepT n).alive = true := by cases n <;> rfl
+@[simp, grind =] theorem SPc.inLoop_asleepT_any (n : Bool) : (SPc.asleepT n).inLoop = true := by cases n <;> rfl
+@[simp, grind =] theorem CPc.holds_of_quiet {p : CPc} (h : p.quiet = true) : p.holds = false := by
   cases p <;> first | rfl | (simp at h; done) | (rename_i x; cases x <;> first | rfl | (simp at h; done))
-@[simp] theorem CPc.stopPre_of_quiet {p : CPc} (h : p.quiet = true) : p.stopPre = false := by
+@[simp, grind =] theorem CPc.stopPre_of_quiet {p : CPc} (h : p.quiet = true) : p.stopPre = false := by
   cases p <;> first | rfl | (simp at h; done) | (rename_i x; cases x <;> first | rfl | (simp at h; done))
-@[simp] theorem CPc.stopTPre_of_quiet {p : CPc} (h : p.quiet = true) : p.stopTPre = false := by
+@[simp, grind =] theorem CPc.stopTPre_of_quiet {p : CPc} (h : p.quiet = true) : p.stopTPre = false := by
   cases p <;> first | rfl | (simp at h; done) | (rename_i x; cases x <;> first | rfl | (simp at h; done))
-@[simp] theorem CPc.stopLockPre_of_quiet {p : CPc} (h : p.quiet = true) : p.stopLockPre = false := by
+@[simp, grind =] theorem CPc.stopLockPre_of_quiet {p : CPc} (h : p.quiet = true) : p.stopLockPre = false := by
   cases p <;> first | rfl | (simp at h; done) | (rename_i x; cases x <;> first | rfl | (simp at h; done))
-@[simp] theorem CPc.inStop_of_quiet {p : CPc} (h : p.quiet = true) : p.inStop = false := by
+@[simp, grind =] theorem CPc.inStop_of_quiet {p : CPc} (h : p.quiet = true) : p.inStop = false := by
   cases p <;> first | rfl | (simp at h; done) | (rename_i x; cases x <;> first | rfl | (simp at h; done))
-@[simp] theorem CPc.getSleeping_of_quiet {p : CPc} (h : p.quiet = true) : p.getSleeping = false := by
+@[simp, grind =] theorem CPc.getSleeping_of_quiet {p : CPc} (h : p.quiet = true) : p.getSleeping = false := by
   cases p <;> first | rfl | (simp at h; done) | (rename_i x; cases x <;> first | rfl | (simp at h; done))
-@[simp] theorem CPc.setoffPending_of_quiet {p : CPc} (h : p.quiet = true) : p.setoffPending = false := by
+@[simp, grind =] theorem CPc.setoffPending_of_quiet {p : CPc} (h : p.quiet = true) : p.setoffPending = false := by
   cases p <;> first | rfl | (simp at h; done) | (rename_i x; cases x <;> first | rfl | (simp at h; done))
-@[simp] theorem CPc.inSet_of_quiet {p : CPc} (h : p.quiet = true) : p.inSet = false := by
+@[simp, grind =] theorem CPc.inSet_of_quiet {p : CPc} (h : p.quiet = true) : p.inSet = false := by
   cases p <;> first | rfl | (simp at h; done) | (rename_i x; cases x <;> first | rfl | (simp at h; done))
-@[simp] theorem CPc.atTrigNotify_of_quiet {p : CPc} (h : p.quiet = true) : p.atTrigNotify = false := by
+@[simp, grind =] theorem CPc.atTrigNotify_of_quiet {p : CPc} (h : p.quiet = true) : p.atTrigNotify = false := by
   cases p <;> first | rfl | (simp at h; done) | (rename_i x; cases x <;> first | rfl | (simp at h; done))
-@[simp] theorem CPc.inGet_of_quiet {p : CPc} (h : p.quiet = true) : p.inGet = false := by
+@[simp, grind =] theorem CPc.inGet_of_quiet {p : CPc} (h : p.quiet = true) : p.inGet = false := by
   cases p <;> first | rfl | (simp at h; done) | (rename_i x; cases x <;> first | rfl | (simp at h; done))
 @[simp] theorem CPc.ne_startCreate_of_quiet {p : CPc} (h : p.quiet = true) : (p = CPc.startCreate) = False := by
   cases p <;> simp_all
+@[grind →] theorem SPc.cases_of_waitingT {p : SPc} (h : p.waitingT = true) : p = .waitT ∨ p = .asleepT false := by
+  cases p <;> first | (simp at h; done) | (simp; done) | (rename_i x; cases x <;> simp_all)
+@[grind →] theorem SPc.cases_of_atLock1 {p : SPc} (h : p.atLock1 = true) : p = .lock1 ∨ p = .asleepT true := by
+  cases p <;> first | (simp at h; done) | (simp; done) | (rename_i x; cases x <;> simp_all)
+@[grind →] theorem SPc.cases_of_holds {p : SPc} (h : p.holds = true) : p = .waitT ∨ p = .notifyF := by
+  cases p <;> first | (simp at h; done) | (simp; done) | (rename_i x; cases x <;> simp_all)
+@[grind →] theorem SPc.alive_of_inLoop {p : SPc} (h : p.inLoop = true) : p.alive = true := by
+  cases p <;> first | rfl | (simp at h; done) | (rename_i x; cases x <;> first | rfl | (simp at h; done))
+@[grind →] theorem SPc.inLoop_of_waitingT {p : SPc} (h : p.waitingT = true) : p.inLoop = true := by
+  cases p <;> first | rfl | (simp at h; done) | (rename_i x; cases x <;> first | rfl | (simp at h; done))
+@[grind →] theorem SPc.inLoop_of_atLock1 {p : SPc} (h : p.atLock1 = true) : p.inLoop = true := by
+  cases p <;> first | rfl | (simp at h; done) | (rename_i x; cases x <;> first | rfl | (simp at h; done))
+@[grind →] theorem SPc.inLoop_of_holds {p : SPc} (h : p.holds = true) : p.inLoop = true := by
+  cases p <;> first | rfl | (simp at h; done) | (rename_i x; cases x <;> first | rfl | (simp at h; done))
+@[grind →] theorem SPc.alive_of_waitingT {p : SPc} (h : p.waitingT = true) : p.alive = true := by
+  cases p <;> first | rfl | (simp at h; done) | (rename_i x; cases x <;> first | rfl | (simp at h; done))
+@[grind →] theorem SPc.alive_of_atLock1 {p : SPc} (h : p.atLock1 = true) : p.alive = true := by
+  cases p <;> first | rfl | (simp at h; done) | (rename_i x; cases x <;> first | rfl | (simp at h; done))
+@[grind →] theorem SPc.alive_of_holds {p : SPc} (h : p.holds = true) : p.alive = true := by
+  cases p <;> first | rfl | (simp at h; done) | (rename_i x; cases x <;> first | rfl | (simp at h; done))
+@[grind →] theorem CPc.stopTPre_of_stopLockPre {p : CPc} (h : p.stopLockPre = true) : p.stopTPre = true := by
+  cases p <;> first | rfl | (simp at h; done) | (rename_i x; cases x <;> first | rfl | (simp at h; done))
+@[grind →] theorem CPc.stopPre_of_stopTPre {p : CPc} (h : p.stopTPre = true) : p.stopPre = true := by
+  cases p <;> first | rfl | (simp at h; done) | (rename_i x; cases x <;> first | rfl | (simp at h; done))
+@[grind →] theorem CPc.inStop_of_stopPre {p : CPc} (h : p.stopPre = true) : p.inStop = true := by
+  cases p <;> first | rfl | (simp at h; done) | (rename_i x; cases x <;> first | rfl | (simp at h; done))
+@[grind →] theorem CPc.inStop_of_stopLockPre {p : CPc} (h : p.stopLockPre = true) : p.inStop = true := by
+  cases p <;> first | rfl | (simp at h; done) | (rename_i x; cases x <;> first | rfl | (simp at h; done))
+@[grind →] theorem CPc.inStop_of_stopTPre {p : CPc} (h : p.stopTPre = true) : p.inStop = true := by
+  cases p <;> first | rfl | (simp at h; done) | (rename_i x; cases x <;> first | rfl | (simp at h; done))
+@[grind →] theorem CPc.holds_of_atTrigNotify {p : CPc} (h : p.atTrigNotify = true) : p.holds = true := by
+  cases p <;> first | rfl | (simp at h; done) | (rename_i x; cases x <;> first | rfl | (simp at h; done))
 
-@[simp] theorem wakeC_holds (p : CPc) : (wakeC p).holds = p.holds := by cases p <;> first | rfl | (rename_i x; cases x <;> rfl)
-@[simp] theorem wakeC_stopPre (p : CPc) : (wakeC p).stopPre = p.stopPre := by cases p <;> first | rfl | (rename_i x; cases x <;> rfl)
-@[simp] theorem wakeC_stopTPre (p : CPc) : (wakeC p).stopTPre = p.stopTPre := by cases p <;> first | rfl | (rename_i x; cases x <;> rfl)
-@[simp] theorem wakeC_stopLockPre (p : CPc) : (wakeC p).stopLockPre = p.stopLockPre := by cases p <;> first | rfl | (rename_i x; cases x <;> rfl)
-@[simp] theorem wakeC_inStop (p : CPc) : (wakeC p).inStop = p.inStop := by cases p <;> first | rfl | (rename_i x; cases x <;> rfl)
-@[simp] theorem wakeC_setoffPending (p : CPc) : (wakeC p).setoffPending = p.setoffPending := by cases p <;> first | rfl | (rename_i x; cases x <;> rfl)
-@[simp] theorem wakeC_quiet (p : CPc) : (wakeC p).quiet = p.quiet := by cases p <;> first | rfl | (rename_i x; cases x <;> rfl)
-@[simp] theorem wakeC_inSet (p : CPc) : (wakeC p).inSet = p.inSet := by cases p <;> first | rfl | (rename_i x; cases x <;> rfl)
-@[simp] theorem wakeC_atTrigNotify (p : CPc) : (wakeC p).atTrigNotify = p.atTrigNotify := by cases p <;> first | rfl | (rename_i x; cases x <;> rfl)
-@[simp] theorem wakeC_inGet (p : CPc) : (wakeC p).inGet = p.inGet := by cases p <;> first | rfl | (rename_i x; cases x <;> rfl)
-@[simp] theorem nextPc_holds (s : State) (w : Who) : (s.nextPc w).holds = false := by
+@[simp, grind =] theorem wakeC_holds (p : CPc) : (wakeC p).holds = p.holds := by cases p <;> first | rfl | (rename_i x; cases x <;> rfl)
+@[simp, grind =] theorem wakeC_stopPre (p : CPc) : (wakeC p).stopPre = p.stopPre := by cases p <;> first | rfl | (rename_i x; cases x <;> rfl)
+@[simp, grind =] theorem wakeC_stopTPre (p : CPc) : (wakeC p).stopTPre = p.stopTPre := by cases p <;> first | rfl | (rename_i x; cases x <;> rfl)
+@[simp, grind =] theorem wakeC_stopLockPre (p : CPc) : (wakeC p).stopLockPre = p.stopLockPre := by cases p <;> first | rfl | (rename_i x; cases x <;> rfl)
+@[simp, grind =] theorem wakeC_inStop (p : CPc) : (wakeC p).inStop = p.inStop := by cases p <;> first | rfl | (rename_i x; cases x <;> rfl)
+@[simp, grind =] theorem wakeC_setoffPending (p : CPc) : (wakeC p).setoffPending = p.setoffPending := by cases p <;> first | rfl | (rename_i x; cases x <;> rfl)
+@[simp, grind =] theorem wakeC_quiet (p : CPc) : (wakeC p).quiet = p.quiet := by cases p <;> first | rfl | (rename_i x; cases x <;> rfl)
+@[simp, grind =] theorem wakeC_inSet (p : CPc) : (wakeC p).inSet = p.inSet := by cases p <;> first | rfl | (rename_i x; cases x <;> rfl)
+@[simp, grind =] theorem wakeC_atTrigNotify (p : CPc) : (wakeC p).atTrigNotify = p.atTrigNotify := by cases p <;> first | rfl | (rename_i x; cases x <;> rfl)
+@[simp, grind =] theorem wakeC_inGet (p : CPc) : (wakeC p).inGet = p.inGet := by cases p <;> first | rfl | (rename_i x; cases x <;> rfl)
+@[simp, grind =] theorem nextPc_holds (s : State) (w : Who) : (s.nextPc w).holds = false := by
   unfold State.nextPc afterScript; cases w <;> (repeat' split) <;> rfl
-@[simp] theorem nextPc_stopPre (s : State) (w : Who) : (s.nextPc w).stopPre = false := by
+@[simp, grind =] theorem nextPc_stopPre (s : State) (w : Who) : (s.nextPc w).stopPre = false := by
   unfold State.nextPc afterScript; cases w <;> (repeat' split) <;> rfl
-@[simp] theorem nextPc_stopTPre (s : State) (w : Who) : (s.nextPc w).stopTPre = false := by
+@[simp, grind =] theorem nextPc_stopTPre (s : State) (w : Who) : (s.nextPc w).stopTPre = false := by
   unfold State.nextPc afterScript; cases w <;> (repeat' split) <;> rfl
-@[simp] theorem nextPc_stopLockPre (s : State) (w : Who) : (s.nextPc w).stopLockPre = false := by
+@[simp, grind =] theorem nextPc_stopLockPre (s : State) (w : Who) : (s.nextPc w).stopLockPre = false := by
   unfold State.nextPc afterScript; cases w <;> (repeat' split) <;> rfl
-@[simp] theorem nextPc_inStop (s : State) (w : Who) : (s.nextPc w).inStop = false := by
+@[simp, grind =] theorem nextPc_inStop (s : State) (w : Who) : (s.nextPc w).inStop = false := by
   unfold State.nextPc afterScript; cases w <;> (repeat' split) <;> rfl
-@[simp] theorem nextPc_getSleeping (s : State) (w : Who) : (s.nextPc w).getSleeping = false := by
+@[simp, grind =] theorem nextPc_getSleeping (s : State) (w : Who) : (s.nextPc w).getSleeping = false := by
   unfold State.nextPc afterScript; cases w <;> (repeat' split) <;> rfl
-@[simp] theorem nextPc_setoffPending (s : State) (w : Who) : (s.nextPc w).setoffPending = false := by
+@[simp, grind =] theorem nextPc_setoffPending (s : State) (w : Who) : (s.nextPc w).setoffPending = false := by
   unfold State.nextPc afterScript; cases w <;> (repeat' split) <;> rfl
-@[simp] theorem nextPc_quiet (s : State) (w : Who) : (s.nextPc w).quiet = true := by
+@[simp, grind =] theorem nextPc_quiet (s : State) (w : Who) : (s.nextPc w).quiet = true := by
   unfold State.nextPc afterScript; cases w <;> (repeat' split) <;> rfl
-@[simp] theorem nextPc_inSet (s : State) (w : Who) : (s.nextPc w).inSet = false := by
+@[simp, grind =] theorem nextPc_inSet (s : State) (w : Who) : (s.nextPc w).inSet = false := by
   unfold State.nextPc afterScript; cases w <;> (repeat' split) <;> rfl
-@[simp] theorem nextPc_atTrigNotify (s : State) (w : Who) : (s.nextPc w).atTrigNotify = false := by
+@[simp, grind =] theorem nextPc_atTrigNotify (s : State) (w : Who) : (s.nextPc w).atTrigNotify = false := by
   unfold State.nextPc afterScript; cases w <;> (repeat' split) <;> rfl
-@[simp] theorem nextPc_inGet (s : State) (w : Who) : (s.nextPc w).inGet = false := by
+@[simp, grind =] theorem nextPc_inGet (s : State) (w : Who) : (s.nextPc w).inGet = false := by
   unfold State.nextPc afterScript; cases w <;> (repeat' split) <;> rfl
 @[simp] theorem nextPc_ne_unborn (s : State) (w : Who) : (s.nextPc w = CPc.unborn) = False := by
   unfold State.nextPc afterScript; cases w <;> (repeat' split) <;> simp
@@ -780,7 +812,7 @@ def SPc.atLock1 : SPc → Bool
 @[simp] theorem wakeC_eq_getAsleep_false (p : CPc) : (wakeC p = CPc.getAsleep false) = False := by
   cases p <;> simp [wakeC]
 
-@[simp] theorem wakeC_getSleeping (p : CPc) : (wakeC p).getSleeping = (p == .getWait) := by
+@[simp, grind =] theorem wakeC_getSleeping (p : CPc) : (wakeC p).getSleeping = (p == .getWait) := by
   cases p <;> first | rfl | (rename_i x; cases x <;> rfl)
 
 end AcqVerif.SimConc
